@@ -12,6 +12,7 @@ import os
 import random
 import shutil
 import tempfile
+import time
 from collections import Counter
 from typing import Optional
 
@@ -884,20 +885,28 @@ class Harness:
                           expected=show(sel.must), also_acceptable=show(sel.may), got=show(got))
             if len(got_keys) != len(got):
                 self.violate('query:duplicate', witness=self.witness(**common))
-            if unindexed and 'query:extra:unindexed-item' not in self.sigs_seen:
-                # diagnostic only: does the entry disappear once the harness' own references
-                # are dropped and a cyclic GC has run?  (same query, cap lifted)
+            if unindexed:
+                # The index holds its items weakly.  An item that has left every shared directory can stay
+                # reachable for a moment through references that are not the library's index: a worker thread of the
+                # scan that has not yet dropped its locals, an object cycle waiting for the cyclic collector.  What
+                # is returned then depends on thread and collector timing, which neither the harness nor a replay
+                # controls (seen once in 120 000 histories, not reproducible).  It is a violation only if it
+                # PERSISTS once those references are gone: the harness drops its own, lets the worker threads
+                # finish, collects, and asks again (same query, cap lifted).
                 n_returned = len(visible) + len(locked)
                 item = visible = locked = None
                 self.settings.searches.receive.max_results = 1000
                 before = self._count_unindexed(query, username)
+                time.sleep(0.05)
                 gc.collect()
                 after = self._count_unindexed(query, username)
-                self.violate('query:extra:unindexed-item', witness=self.witness(
-                    unindexed=unindexed, returned=n_returned, unindexed_before_gc=before, unindexed_after_gc=after,
-                    **common))
-            elif unindexed:
-                self.violate('query:extra:unindexed-item')
+                if after:
+                    self.violate('query:extra:unindexed-item', witness=self.witness(
+                        unindexed=unindexed, returned=n_returned, unindexed_before_gc=before, unindexed_after_gc=after,
+                        **common))
+                else:
+                    runner.add_obs(self.res, 'transient_unindexed_items_not_judged')
+                    unindexed = []
             if extra:
                 in_model = [x for x in extra if x in by_key]
                 sig = f'query:extra:{kind}' if in_model else 'query:extra:stale-index-item'
